@@ -85,6 +85,7 @@ func blockingSites(fn *ssa.Function) []BSite {
 type CtxJudge struct {
 	P       *Prog
 	fieldOK map[*types.Var]*bool
+	paramOK map[*ssa.Parameter]*string // nil while in progress; "" = ok; else reason
 }
 
 func isContextType(t types.Type) bool {
@@ -92,19 +93,27 @@ func isContextType(t types.Type) bool {
 	return ok && n.Obj().Pkg() != nil && n.Obj().Pkg().Path() == "context" && n.Obj().Name() == "Context"
 }
 
+// OK: the context value v is the workers' group context (the context
+// result of errgroup.WithContext) or derives from it: through context
+// parameters (every caller in the program passes such a context), context
+// fields (every store stores such a context) and context.With*.
 func (j *CtxJudge) OK(r *Resolver, v ssa.Value) (bool, string) {
 	return j.okOrg(r, r.Of(v), 0)
 }
 
 func (j *CtxJudge) okOrg(r *Resolver, o *Org, depth int) (bool, string) {
-	if depth > 8 {
+	if depth > 12 {
 		return false, "derivation too deep"
 	}
 	for _, a := range o.Alts() {
 		switch a.K {
 		case "param":
-			if !isContextType(a.V.Type()) {
+			prm, isP := a.V.(*ssa.Parameter)
+			if !isP || !isContextType(a.V.Type()) {
 				return false, "parameter " + a.Name + " is not a context"
+			}
+			if why := j.paramWhy(prm, depth); why != "" {
+				return false, why
 			}
 		case "field":
 			fv := fieldVarOf(a)
@@ -121,19 +130,70 @@ func (j *CtxJudge) okOrg(r *Resolver, o *Org, depth int) (bool, string) {
 				if a.Idx != 1 {
 					return false, "not the context result of errgroup.WithContext"
 				}
-			case "os/signal.NotifyContext":
 			case "context.WithCancel", "context.WithTimeout", "context.WithDeadline", "context.WithValue", "context.WithCancelCause":
 				if ok, why := j.okOrg(r, r.Of(c.Call.Args[0]), depth+1); !ok {
 					return false, why
 				}
 			default:
-				return false, "context produced by " + a.Name + " is not tied to the worker's cancellation"
+				return false, "context produced by " + a.Name + " is not the workers' group context: cancelling the group does not cancel it"
 			}
 		default:
 			return false, "context of unknown origin " + a.String()
 		}
 	}
-	return true, "context derives from " + o.String()
+	return true, "context derives from the errgroup context via " + o.String()
+}
+
+// paramWhy judges a context parameter through every call edge into its
+// function ("" = every caller passes the group context).
+func (j *CtxJudge) paramWhy(prm *ssa.Parameter, depth int) string {
+	if j.paramOK == nil {
+		j.paramOK = map[*ssa.Parameter]*string{}
+	}
+	if w, ok := j.paramOK[prm]; ok {
+		if w == nil {
+			return "" // in progress (recursive call chain): coinductive
+		}
+		return *w
+	}
+	j.paramOK[prm] = nil
+	fn := prm.Parent()
+	idx := -1
+	for i, q := range fn.Params {
+		if q == prm {
+			idx = i
+		}
+	}
+	res := ""
+	node := j.P.graph().Nodes[fn]
+	n := 0
+	if node != nil {
+		for _, e := range node.In {
+			if e.Site == nil {
+				continue
+			}
+			cc := e.Site.Common()
+			args := cc.Args
+			if cc.IsInvoke() {
+				args = append([]ssa.Value{cc.Value}, cc.Args...)
+			}
+			// calls of a closure / function value: callee params == args
+			if len(args) != len(fn.Params) {
+				continue
+			}
+			n++
+			cr := NewResolver(j.P)
+			if ok, why := j.okOrg(cr, cr.Of(args[idx]), depth+1); !ok {
+				res = fmt.Sprintf("context parameter %s of %s receives, at %s, a context that is not the group context (%s)", prm.Name(), funcDisplayName(fn), j.P.InstrPos(e.Site), why)
+				break
+			}
+		}
+	}
+	if n == 0 && res == "" {
+		res = fmt.Sprintf("context parameter %s of %s has no caller in the program: its context is not tied to the workers' group", prm.Name(), funcDisplayName(fn))
+	}
+	j.paramOK[prm] = &res
+	return res
 }
 
 // fieldVarOf returns the struct field object selected by a field origin.
